@@ -1665,6 +1665,11 @@ def run(ctx):
     r18 = ctx.rule("C03-R18", "numbers of every length the writers emit are scanned in full at any look-ahead offset: digit class, +1 per digit, fast paths continue at offset + 8 (shared with C13-R3/R4)", floor=60)
     c13.run_r3(ctx, r18)
     c13.run_r4(ctx, r18)
+    # R19: what a writer produced is parsed back however it arrives (a pipe delivers it in pieces): no token decides on the
+    # raw buffered slice where it has to ask the reader (C01-R1's classification of every buf / buf_len / is_at_end use)
+    from .c01 import run_r1 as c01_r1
+    r19 = ctx.rule("C03-R19", "the parsers read the writers' output through look-ahead requests, not through whatever happens to be buffered (shared with C01-R1)", floor=25)
+    c01_r1(ctx, r19)
     from .c06 import run_r6 as c06_r6
     r13b = ctx.rule("C03-R13b", "the reader accepts every delta the writer can emit: a delta equal to its reference code (the constant 0 as a gate input) is not rejected (shared with C06-R6)", floor=1)
     c06_r6(ctx, r13b, inclusive_only=True)
